@@ -169,6 +169,8 @@ class St:
         self.offidx = []     # subscripts of _offset read
         self.coefcalls = []  # (pc, fIR, itIR)
         self.nid = 0
+        self.pre_loop = set()   # locals declared in front of the loop over _offset: read-only inside it
+        self.loop_outer = set() # locals of the enclosing scope while a stencil loop is executed: read-only inside it
 
     def fresh(self):
         self.nid += 1
@@ -433,11 +435,6 @@ def hinfo_slot(sub, st):
 
 # ---------------------------------------------------------------------------------------- statements
 
-def field_types(n):
-    """declared types of hi::index / hi::weight from the member expression node"""
-    return ctype(n)
-
-
 def struct_value(n, st):
     """{'index': V, 'weight': V} of an rvalue of type hi"""
     m = unwrap(n)
@@ -464,7 +461,7 @@ def table_write(st, slot, field, v):
     st.writes.append((list(st.pc), st.loop, slot, field, v))
 
 
-def assign(lhs, rhs_node, st, rhs_struct=None):
+def assign(lhs, rhs_node, st):
     l = unwrap(lhs)
     k = l.get("kind")
     if k == "DeclRefExpr":
@@ -473,6 +470,8 @@ def assign(lhs, rhs_node, st, rhs_struct=None):
             raise TranslateError("assignment to %s not understood" % nm)
         if st.loop is not None and nm in st.loop_outer:
             raise TranslateError("local %s of the enclosing scope is assigned inside the stencil loop" % nm)
+        if nm in st.pre_loop:
+            raise TranslateError("local %s declared in front of the loop over _offset is assigned inside it (loop-carried state)" % nm)
         v = ev(rhs_node, st)
         st.env[nm] = bind(v, st.decl[nm])
         return
@@ -517,7 +516,7 @@ def bind(v, ty):
     raise TranslateError("variable of type %s" % (ty,))
 
 
-def loop_header(f, st, want_bound=None):
+def loop_header(f, st):
     """(loop variable, its type, bound V) of `for (T v = 0; v < B; v++)`"""
     ks = f.get("inner", [])
     if len(ks) != 5 or ks[0] is None or ks[2] is None or ks[3] is None or ks[4] is None or ks[1]:
@@ -874,9 +873,9 @@ def translate():
     d, body = wu.method_body("src/SM/KickMap.cpp", "KickMap::updateSM", "updateSM")
     pre, loop = find_loop(body)
     st = St()
-    st.loop_outer = set()
     for s in pre:
         exec_stmt(s, st, None)
+    st.pre_loop = set(st.decl)
     name, ty, condn, lbody = loop_header(loop, st)
     st.env[name] = V(ty, ("var", "i"), True, rng_of(ty))
     st.decl[name] = ty
